@@ -743,7 +743,7 @@ fn caps(out: &mut String) {
 // ---------------------------------------------------------------------------------------------
 
 #[derive(Clone, Copy, PartialEq, Debug)]
-pub enum Mode { Seq, Lend, LendFe, LendGet, Tree, Par, Unc }
+pub enum Mode { Seq, Lend, LendFe, LendGet, LendGetW, Tree, Par, Unc }
 #[derive(Clone, Copy, PartialEq, Debug)]
 pub enum Via { Foreach, Map, Collect, Count, FindFirst(u32), FindLast(u32) }
 #[derive(Clone, Copy, Debug)]
@@ -763,11 +763,11 @@ pub struct JoinOp {
     pub members_read_only: bool,
 }
 fn mode_name(m: Mode) -> &'static str {
-    match m { Mode::Seq => "seq", Mode::Lend => "lend", Mode::LendFe => "lendfe", Mode::LendGet => "lendget",
+    match m { Mode::Seq => "seq", Mode::Lend => "lend", Mode::LendFe => "lendfe", Mode::LendGet => "lendget", Mode::LendGetW => "lendgetw",
               Mode::Tree => "tree", Mode::Par => "par", Mode::Unc => "unc" }
 }
 fn mode_of(s: &str) -> Option<Mode> {
-    Some(match s { "seq" => Mode::Seq, "lend" => Mode::Lend, "lendfe" => Mode::LendFe, "lendget" => Mode::LendGet,
+    Some(match s { "seq" => Mode::Seq, "lend" => Mode::Lend, "lendfe" => Mode::LendFe, "lendget" => Mode::LendGet, "lendgetw" => Mode::LendGetW,
                    "tree" => Mode::Tree, "par" => Mode::Par, _ => return None })
 }
 impl JoinOp {
@@ -848,7 +848,7 @@ fn pool_for(n: usize) -> &'static rayon::ThreadPool {
 }
 
 macro_rules! mode_id {
-    (seq) => { Mode::Seq }; (lend) => { Mode::Lend }; (lendfe) => { Mode::LendFe }; (lendget) => { Mode::LendGet };
+    (seq) => { Mode::Seq }; (lend) => { Mode::Lend }; (lendfe) => { Mode::LendFe }; (lendget) => { Mode::LendGet }; (lendgetw) => { Mode::LendGetW };
     (par) => { Mode::Par }; (tree) => { Mode::Tree }; (unc) => { Mode::Unc };
 }
 
@@ -898,6 +898,28 @@ macro_rules! arm {
                         Some(&ent) => put_probe(it.get(ent, &probe_ents), i, $out),
                     },
                     Probe::U(i) => put_probe(it.get_unchecked(i), i, $out),
+                }
+            }
+        }
+        if $out.len() > mark { $out.remove(mark); } // no leading space
+    }};
+    (lendgetw, $x:ident, $op:ident, $out:ident, { $($pre:tt)* }, $e:expr) => {{
+        // look-ups by entity through ONE lending join, each item visited like an iterated one (printed, then every mutable
+        // component incremented): a later look-up of the same entity sees what an earlier one did
+        let probe_ents = $x.world.entities();
+        $($pre)*
+        let mark = $out.len();
+        {
+            let mut it = ($e).lend_join();
+            for p in &$op.probes {
+                if let Probe::H(i, g) = *p {
+                    match $x.handles.get(&(i, g)) {
+                        None => $out.push_str(" skip"),
+                        Some(&ent) => match it.get(ent, &probe_ents) {
+                            None => $out.push_str(" none"),
+                            Some(mut item) => { $out.push_str(" some:"); item.put(Some(i), $out); item.bump(); }
+                        },
+                    }
                 }
             }
         }
@@ -1041,7 +1063,7 @@ fn exec_op(h: &mut H, op: &JoinOp, out: &mut String) {
         }
     }
     let hook_missing = out[mark..].starts_with("nohook");
-    let with_post = matches!(op.mode, Mode::Seq | Mode::Lend | Mode::LendFe | Mode::Par | Mode::Tree);
+    let with_post = matches!(op.mode, Mode::Seq | Mode::Lend | Mode::LendFe | Mode::LendGetW | Mode::Par | Mode::Tree);
     let ks = sh.mut_ks();
     let ev12 = h.events(12);
     let ev13 = h.events(13);
@@ -1120,7 +1142,7 @@ fn parse_join(line: &str) -> Result<JoinOp, String> {
     for (k, _) in &op.opts {
         let ok = match (mode, k.as_str()) {
             (Mode::Seq, "take") | (Mode::Lend, "take") => true,
-            (Mode::LendGet, "probes") | (Mode::LendGet, "uprobes") => true,
+            (Mode::LendGet, "probes") | (Mode::LendGet, "uprobes") | (Mode::LendGetW, "probes") => true,
             (Mode::Tree, "tree") => true,
             (Mode::Par, "pool") | (Mode::Par, "via") => true,
             _ => false,
